@@ -57,6 +57,13 @@ TIER_CAPS = {
     "playback": dict(timeout=3600, mem_kib=44 * 1024 * 1024, jobs=4),
 }
 
+if os.environ.get("AVRA_JOBS"):
+    for _t in ("quick", "thorough"):
+        TIER_CAPS[_t]["jobs"] = max(1, int(os.environ["AVRA_JOBS"]))
+if os.environ.get("AVRA_MEM_GIB"):
+    for _t in ("quick", "thorough"):
+        TIER_CAPS[_t]["mem_kib"] = int(os.environ["AVRA_MEM_GIB"]) * 1024 * 1024
+
 ROW = re.compile(
     r'^\s*(\w+)\s*\{\s*prop:\s*(\w+),\s*feat:\s*"(\w+)",\s*tier:\s*(\w+),\s*mode:\s*(\w+),\s*unwind:\s*(\d+),\s*caps:\s*"([^"]*)"\s*\}\s*=>\s*\|s\|\s*(.*);\s*$'
 )
@@ -450,8 +457,12 @@ def run_harness_in(h, tier, want_playback, slot):
                     unwindset.append("%s.%s:%d" % (sym, num, n))
     if want_playback:
         cmd += ["-Z", "concrete-playback", "--concrete-playback=print"]
-    if unwindset:
-        cmd += ["--cbmc-args", "--unwindset", ",".join(unwindset)]
+    extra = (h.get("cbmc") or "").split() + os.environ.get("AVRA_EXTRA_CBMC", "").split()
+    if unwindset or extra:
+        cmd += ["--cbmc-args"]
+        if unwindset:
+            cmd += ["--unwindset", ",".join(unwindset)]
+        cmd += extra
     t1 = time.time()
     rc, timed_out = run_cmd(cmd, logf, timeout=caps["timeout"], mem_kib=caps["mem_kib"])
     wall = time.time() - t0
